@@ -85,7 +85,7 @@ def reads_report_what_they_return(ctx):
     f = ctx.func('utils.ReadFileChunk.read')
     cs = [c for c in own_calls(f.node) if (dotted(c.func) or '').endswith('invoke_progress_callbacks')]
     rets = [x for x in own_nodes(f.node) if isinstance(x, ast.Return)]
-    ok = len(cs) == 1 and len(rets) == 1 and norm(cs[0].args[1]) == f'len({norm(rets[0].value)})' and norm(cs[0].args[0]) == 'self._callbacks'
+    ok = len(cs) == 1 and len(rets) == 1 and norm(q.resolve_local(f, q.argn(cs[0], 'bytes_transferred', 1))) == f'len({norm(rets[0].value)})' and norm(q.argn(cs[0], 'callbacks', 0)) == 'self._callbacks'
     ctx.ob(f, 'read(): invoke_progress_callbacks(self._callbacks, len(data)) with data = the returned value', ok, 'the amount reported must be the amount returned')
     ok = len(cs) == 1 and q.guards_imply(q.guards(cs[0]), 'self._callbacks_enabled')
     ctx.ob(f, 'read(): only while self._callbacks_enabled', ok, 'reads made while signing the request would be counted as transferred')
@@ -124,7 +124,7 @@ def reads_report_what_they_return(ctx):
     f = ctx.func('utils.StreamReaderProgress.read')
     cs = [c for c in own_calls(f.node) if (dotted(c.func) or '').endswith('invoke_progress_callbacks')]
     rets = [x for x in own_nodes(f.node) if isinstance(x, ast.Return)]
-    ok = len(cs) == 1 and len(rets) == 1 and norm(cs[0].args[1]) == f'len({norm(rets[0].value)})' and not q.guards(cs[0]) and norm(cs[0].args[0]) == 'self._callbacks'
+    ok = len(cs) == 1 and len(rets) == 1 and norm(q.resolve_local(f, q.argn(cs[0], 'bytes_transferred', 1))) == f'len({norm(rets[0].value)})' and not q.guards(cs[0]) and norm(q.argn(cs[0], 'callbacks', 0)) == 'self._callbacks'
     ctx.ob(f, 'StreamReaderProgress.read reports len(value) of the value it returns', ok, 'download progress must equal the bytes read')
     f = ctx.func('utils.invoke_progress_callbacks')
     calls = [c for c, r in q.calls_in(ctx, f) if r.kind == 'open']
